@@ -360,6 +360,20 @@ func cmpAscending(p *core.Prog, lf *core.Func) bool {
 		if len(res) != 1 {
 			continue
 		}
+		// a comparator that only forwards: return compareUint64(xs[i], xs[j]) - decided by the three-way helper, whose
+		// first parameter then plays the role of i and the second that of j
+		if c, ok := core.Unparen(res[0]).(*ast.CallExpr); ok && len(c.Args) == 2 && len(lg.Returns()) == 1 {
+			if fo := core.Callee(info, c); fo != nil {
+				if h := p.ByObj[fo.Origin()]; h != nil && h.Body != nil && h != lf && h.ParamObj(1) != nil && h.ParamObj(2) == nil {
+					switch {
+					case onlyI(c.Args[0]) && onlyJ(c.Args[1]):
+						return cmpAscending(p, h)
+					case onlyJ(c.Args[0]) && onlyI(c.Args[1]):
+						return false
+					}
+				}
+			}
+		}
 		if c, ok := core.Unparen(res[0]).(*ast.CallExpr); ok && core.CalleeName(info, c) == "cmp.Compare" && len(c.Args) == 2 {
 			if onlyI(c.Args[0]) && onlyJ(c.Args[1]) {
 				return true
